@@ -97,6 +97,34 @@ def analyzer_dispatch(ck):
                                      dict(order=order, cross=cross, backend=be), tag="dispatch:%s" % be)
 
 
+def order_interleaving(ck):
+    """Analyses with different detrend orders on the same record in one process do not influence each other: the order-p estimate
+    is the same before and after an analysis with another order (and with a cubic trend present the orders do differ)."""
+    from speckit.analysis import SpectrumAnalyzer
+    for it in range(2 if ck.tier == "quick" else 10):
+        N = ck.rng.randint(380, 460)
+        g = np.random.default_rng(ck.rng.randint(0, 2 ** 31))
+        t = (np.arange(N) - N / 2) / N
+        x = g.standard_normal(N) + 40 * t ** 3 + 9 * t ** 2; y = g.standard_normal(N) - 25 * t ** 3 + 4 * t
+        for be in ("numba", "numpy"):
+            for cross in (False, True):
+                first = {}
+                seq = [1, 2, 1, 0, 2, -1, 0, 1]
+                for order in seq:
+                    kw = dict(Jdes=8, Kdes=3, order=order, scheduler="ltf", win="hann", backend=be, Lmin=16)
+                    with np.errstate(all="ignore"):
+                        r = SpectrumAnalyzer(np.vstack([x, y]) if cross else x, 1.0, **kw).compute()
+                    v = np.concatenate([r._data["XX"], r._data["YY"], r._data["XY"].real, r._data["XY"].imag])
+                    if order in first and not np.array_equal(first[order], v):
+                        ck.violation("order=%d %s analysis (%s backend) gives different numbers after analyses with other detrend orders in the same process (max rel change %g)" %
+                                     (order, "cross" if cross else "auto", be, float(np.max(np.abs(v - first[order])) / (np.max(np.abs(first[order])) + 1e-300))),
+                                     dict(order=order, cross=cross, backend=be, N=N, sequence=seq), tag="interleave:%s" % be)
+                        break
+                    first.setdefault(order, v)
+                if 1 in first and 2 in first and np.allclose(first[1], first[2], rtol=1e-6, atol=0):
+                    ck.violation("order=1 and order=2 analyses coincide although the record has a quadratic trend (%s backend)" % be, dict(backend=be, N=N), tag="interleave-same:%s" % be)
+
+
 def run(ck):
     r = regen.regen_kernels()
     ck.obligation("translate:T1 kernels -> gen/KernelsGen.v", r["ok"], r["error"] or "")
@@ -104,6 +132,7 @@ def run(ck):
     basis_contract(ck)
     trend_sweep(ck)
     analyzer_dispatch(ck)
+    order_interleaving(ck)
     ck.cov["rule"] = "kernel cases (L in {5..257}, 4 backends, auto+cross): add degree<=p polynomials of size 1 or 1e3 to both channels (own coefficients) -> unchanged within the rounding budget of the trend; degree p+1 -> changes as the definition predicts; QR basis contract; analyzer dispatch per order on 3 backends"
     ck.samples = [dict(test="order 2, csd, numba, quadratic trends of size 1e3 on both channels")]
     ck.assumptions += ["orders 1,2 are proved for any basis with orthonormal columns; that LAPACK's Q is orthonormal and spans 1,t,t^2 is a contract validated numerically each run", "rounding relative to the size of the added trend"]
